@@ -589,7 +589,7 @@ class CntField(RawField):
 
     def size(self, psize=0):
         try:
-            return struct.calcsize(self.format(psize))
+            return struct.calcsize(self.order + self.format(psize))
         except Exception:
             return float("Infinity")
 
